@@ -19,15 +19,17 @@ from . import c09_eval as E
 from . import c09_gen as G
 
 MANIFEST = {
-    "text": "Coq theorems about an executable model of stix2.equivalence.pattern (62 theorems, all closed under the global "
+    "text": "Coq theorems about an executable model of stix2.equivalence.pattern (66 theorems, all closed under the global "
             "context): the comparators are lawful total preorders, hence the reported relation is reflexive, symmetric and "
             "transitive and find_equivalent_patterns is the filter of the pairwise test; every pass of the normaliser "
             "(flatten, order/dedupe, absorption with its deletion loop, DNF with root-type pruning, special values, settle) "
             "preserves the meaning of comparison expressions for EVERY interpretation of the atoms, and refines observation "
             "expressions both ways in the binding semantics of DESIGN A.5 for EVERY observation sequence, hence "
             "equiv = Ok true implies equal matches (equiv_sound); the IPv4 canonical text denotes the same network "
-            "(inet_aton/inet_ntoa round trip, byte-wise masking = arithmetic masking); the listed rewrites are recognised "
-            "by the responsible pass, and by the whole pipeline for one-comparison patterns.  The model is tied to /repo on "
+            "(inet_aton/inet_ntoa round trip, byte-wise masking = arithmetic masking); commutativity, associativity, "
+            "idempotence and parentheses are recognised through the WHOLE pipeline for arbitrary operands at both levels "
+            "(Spec/PatternRules.v: crule/orule; recognises_rules_full), the other listed rewrites by the responsible pass, "
+            "and by the whole pipeline for one-comparison patterns.  The model is tied to /repo on "
             "every run by a correspondence run on generated patterns (normal forms, equivalent_patterns, "
             "find_equivalent_patterns), with the defect variant of the special-value pass selected by running witnesses.",
     "design_ref": "DESIGN.md 6/C09, Appendix A.5",
@@ -36,8 +38,11 @@ MANIFEST = {
             "binding semantics of Spec/PatternSemantics.v.  Totality is proved (equiv_never_raises: on constructor-valid "
             "patterns some fuel suffices and the answer does not depend on it; settle loops and both DNF recursions "
             "terminate).  Partial: IPv6 canonicalisation is a hypothesis on the interpretation "
-            "(respects_cidr6); recognition of idempotence/absorption/distribution for arbitrary sub-expressions through "
-            "the whole pipeline is checked by the harness (oracle `recognise`), proved only pass by pass.  The pinned "
+            "(respects_cidr6); recognition of absorption/distribution for arbitrary sub-expressions through "
+            "the whole pipeline is checked by the harness (oracle `recognise`), proved only pass by pass (for absorption the "
+            "whole-pipeline statement is false on the current code: absorption_not_recognised_full, known finding "
+            "C09-absorption-qualified-operand); rule instances strictly inside a larger expression of the same level are "
+            "covered by the oracle only.  The pinned "
             "special-value pass is unsound / raises on some valid patterns: *_refuted theorems, known findings.",
     "technique": "Coq proof over a hand-written executable model + correspondence run + independent pattern evaluator",
 }
